@@ -46,6 +46,32 @@ type e1Model struct {
 	wholes   map[string]*emit.Whole
 	evals    map[string]*emit.PolicyEval
 	problems []string
+	condFn   *ssa.Function // the emitter that creates per-list and per-condition labels (loop depth 1 and 2)
+}
+
+// condEmitter finds the emitter function that lowers condition lists: the one whose labels are created inside
+// two nested loops (identified by structure, so that renaming or splitting Assemble does not lose it).
+func (m *e1Model) condEmitter() *ssa.Function {
+	if m.condFn != nil || m.fragG == nil {
+		return m.condFn
+	}
+	// the function (other than the builder's own methods) that creates labels at the greatest loop depth
+	best := -1
+	for _, n := range m.fragG.Nodes {
+		if n.Kind != emit.EvNew || n.L == nil || n.L.Fn() == nil || n.L.Fn() == m.fragFn {
+			continue
+		}
+		if recv := n.L.Fn().Signature.Recv(); recv != nil {
+			if pt, ok := recv.Type().(*types.Pointer); ok && isNamed(pt.Elem(), load.PkgRoot, "Program") {
+				continue
+			}
+		}
+		if d := n.L.Depth(); d > best {
+			best = d
+			m.condFn = n.L.Fn()
+		}
+	}
+	return m.condFn
 }
 
 func (e *Env) E1() *e1Model {
